@@ -343,6 +343,29 @@ def _r5(ctx):
             ok = a in ("db_entries[%s]" % U(loops[0].target), U(loops[0].target))
     ctx.check(ok, "R5", "every entry of the parsed dict is passed to set_instruction_entry", f.where(),
               "not every parsed entry is inserted into the model", f.qname, "insert all")
+    # a form that has been parsed reaches the dict on every path of its iteration (rejected measurements are recorded as
+    # missing, not dropped with the form)
+    for q in ("db_interface._get_ibench_output", "db_interface._get_asmbench_output"):
+        g = ctx.func(q)
+        cfg = C.cfg_of(g)
+        created = [n for n in ast.walk(g.node) if isinstance(n, ast.Assign) and isinstance(n.targets[0], ast.Name)
+                   and C.is_call_to(n.value, "InstructionForm")]
+        for cr in created:
+            ev = cr.targets[0].id
+            loop = C.enclosing_loop(cr)
+            stores = [n for n in ast.walk(g.node) if isinstance(n, ast.Assign) and isinstance(n.targets[0], ast.Subscript)
+                      and isinstance(n.value, ast.Name) and n.value.id == ev]
+            if loop is None or not stores:
+                ctx.unknown("R5", "%s: parsed form reaches the result" % g.name, g.where(cr), "no `<dict>[key] = %s` store / loop found" % ev)
+                continue
+            lost = cfg.reachable(cr, loop, avoid=stores, within=loop)
+            skips = [x for x in ast.walk(loop) if isinstance(x, ast.Continue) and cfg.reachable(cr, x, avoid=stores, within=loop)]
+            ctx.check(not lost, "R5", "%s: a form that was parsed is stored on every path of its iteration" % g.name,
+                      g.where(skips[0]) if skips else g.where(cr),
+                      "after `%s = InstructionForm(...)` an iteration can return to the loop head without `%s`%s: a form whose "
+                      "measurement is rejected (outside the 5%% window) is then absent from the emitted model instead of appearing "
+                      "with the value recorded as missing" % (ev, U(stores[0]), " (through the `continue` at line %d)" % skips[0].lineno if skips else ""),
+                      g.qname, "form stored on every path")
     src = {"ibench": "_get_ibench_output", "asmbench": "_get_asmbench_output"}
     for kind, fn in src.items():
         hit = [n for n in ast.walk(f.node) if isinstance(n, ast.If) and U(n.test) == "bench_type == '%s'" % kind
